@@ -11,7 +11,7 @@ import pydot
 from decwire import cell, dec
 from project import project, digest
 
-SI = {"p": -12, "n": -9, "u": -6, "m": -3, "k": 3, "M": 6}
+SI = {"f": -15, "p": -12, "n": -9, "u": -6, "\u00b5": -6, "\u03bc": -6, "m": -3, "k": 3, "M": 6, "G": 9}
 
 
 def unq(s):
@@ -81,7 +81,8 @@ def render_case(s, cid, heat, group, conf, tmpdir):
     case = {"id": cid, "st": {"comps": [{"name": c["name"], "cls": c["cls"], "group": c["group"], "par": c["par"]} for c in st["comps"]]},
             "group": bool(group), "heat": bool(heat), "outcome": "ok", "exc": "", "conf": conf_record(eff),
             "nodes": [], "clusters": [], "edges": [], "losses": [], "legend": cell(0.0), "haslegend": False,
-            "conf0": digest(repr(conf)), "conf1": ""}
+            "conf0": digest(repr(conf)), "conf1": "", "solve_failed": False,
+            "legendnode": "", "hasscale": False, "cold": [0, 0, 0], "warm": [0, 0, 0]}
     path = os.path.join(tmpdir, "d%d.raw" % cid)
     try:
         with warnings.catch_warnings():
@@ -143,10 +144,23 @@ def render_case(s, cid, heat, group, conf, tmpdir):
                 case["nodes"].append(node_rec(n, label))
     for e in g.get_edges():
         case["edges"].append([unq(e.get_source()), unq(e.get_destination()), attrs_list(e.get_attributes())])
-    for n in case["nodes"]:
-        if n["name"] == "Scale":
-            lab = unq(dict(n["attrs"]).get("label", "")).strip("{}")
-            v = parse_val(lab.split("|")[0])
+    # the heat-scale legend: the one rendered node that is not a component (whatever it is called); its label shows the
+    # maximum loss in one of its fields, its fill the cold -> warm scale the component colours are taken from
+    names = {c["name"] for c in st["comps"]}
+    case["legendnode"], case["hasscale"], case["cold"], case["warm"] = "", False, [0, 0, 0], [0, 0, 0]
+    extra = [n for n in case["nodes"] if n["name"] not in names]
+    if heat and len(extra) == 1:
+        n = extra[0]
+        case["legendnode"] = n["name"]
+        a = dict(n["attrs"])
+        lab = unq(a.get("label", "")).strip("{}")
+        for field in lab.split("|"):
+            v = parse_val(field)
             if v is not None:
                 case["legend"], case["haslegend"] = v, True
+                break
+        m = re.fullmatch(r"#([0-9a-fA-F]{2})([0-9a-fA-F]{2})([0-9a-fA-F]{2}):#([0-9a-fA-F]{2})([0-9a-fA-F]{2})([0-9a-fA-F]{2})", unq(a.get("fillcolor", "")))
+        if m:
+            g6 = [int(x, 16) for x in m.groups()]
+            case["cold"], case["warm"], case["hasscale"] = g6[:3], g6[3:], True
     return case
